@@ -12,6 +12,7 @@ The model is of the repaired code (`fix:` commits f1d9076, 09f1297, 992fc5c in /
 defects are kept as replay files in `/verif/corpus/c04-*.ops`.
 -/
 import Micromap.Proofs.SysInv
+import Micromap.Model.Legacy
 
 namespace Micromap.Props.C04
 open Micromap SetAlg Dict
@@ -71,6 +72,58 @@ theorem clone_exception_safe {src : Raw K V} (hsrc : Inv E src) (w : World K V Q
     Sat (cloneInto E src) ⟨Raw.new src.cap, w⟩ (fun _ s' => Inv E s'.r ∧ s'.r.cap = src.cap)
       (fun _ _ => True) :=
   cloneInto_inv E hsrc w
+
+/-! ### the three defects of the pinned tree, formally (negative theorems by concrete witness)
+
+`Model/Legacy.lean` mirrors `clear`, `remove_index_drop` and `clone` as they were before the `fix:`
+commits.  Each admits a well-formed map and an injection point after which a dead or
+uninitialised slot is dropped — the model's `ub`.  The repaired functions (above) do not. -/
+
+/-- integers as keys/values, honest `==`. -/
+def nEnv : Env Nat Nat Nat :=
+  { eqK := fun _ a b => a == b, eqQ := fun _ a b => a == b, eqV := fun a b => a == b, borrow := id,
+    clK := fun _ k => k, clV := fun _ v => v }
+
+/-- a map `{7: 70, 8: 80}` of capacity 3. -/
+def twoRaw : Raw Nat Nat :=
+  { cap := 3, len := 2, slots := fun i => if i = 0 then some (7, 70) else if i = 1 then some (8, 80) else none }
+
+def isUb {σ α : Type} : Res σ α → Bool
+  | .ub => true
+  | _ => false
+
+/-- pre-fix `clear`: the `Drop` of the first value panics (2nd callback); `len` is still 2 although
+    slot 0 is dead, so dropping the map afterwards destroys slot 0 a second time. -/
+theorem legacy_clear_double_drop :
+    (match Legacy.clear nEnv ⟨twoRaw, { inject := some 1 }⟩ with
+      | .panic _ s' => s'.r.len == 2 && (s'.r.slots 0).isNone && isUb (dropMap nEnv s')
+      | _ => false) = true := by decide
+
+/-- the repaired `clear` on the same input: the map is empty, dropping it is fine. -/
+theorem fixed_clear_ok :
+    (match Micromap.clear nEnv ⟨twoRaw, { inject := some 1 }⟩ with
+      | .panic _ s' => s'.r.len == 0 && !isUb (dropMap nEnv s')
+      | _ => false) = true := by decide
+
+/-- pre-fix `remove_index_drop` (behind `retain`): the `Drop` of the removed value panics; the dead
+    slot stays below `len` and is dropped again with the map. -/
+theorem legacy_retain_double_drop :
+    (match Legacy.remove_index_drop nEnv 0 ⟨twoRaw, { inject := some 1 }⟩ with
+      | .panic _ s' => s'.r.len == 2 && (s'.r.slots 0).isNone && isUb (dropMap nEnv s')
+      | _ => false) = true := by decide
+
+theorem fixed_remove_index_drop_ok :
+    (match Micromap.remove_index_drop nEnv 0 ⟨twoRaw, { inject := some 1 }⟩ with
+      | .panic _ s' => s'.r.len == 1 && !isUb (dropMap nEnv s')
+      | _ => false) = true := by decide
+
+/-- pre-fix `clone`: `Clone` of the second key panics (3rd callback); the half-built local has
+    `len = 2` but only slot 0 written, and the unwinding drop reads the uninitialised slot 1. -/
+theorem legacy_clone_drops_uninit :
+    isUb (Legacy.cloneInto nEnv twoRaw ⟨Raw.new 3, { inject := some 2 }⟩) = true := by decide +kernel
+
+theorem fixed_clone_ok :
+    isUb (Micromap.cloneInto nEnv twoRaw ⟨Raw.new 3, { inject := some 2 }⟩) = false := by decide +kernel
 
 /-! ### non-vacuity (tests) -/
 
